@@ -228,6 +228,21 @@ def run_hugesim(ctx, flavour, prop, kinds, runs):
     return res
 
 
+ISA_BEYOND = re.compile(r"^-m(sse3|ssse3|sse4(\.[12]|a)?|avx$|avx512\w*|avxvnni|fma4?|f16c|xop|bmi2?|popcnt|lzcnt|abm|aes|vaes|pclmul|vpclmulqdq|sha|gfni|movbe|adx|tbm)$|^-march=(?!x86-64$)")
+
+
+def isa_flags_beyond_the_probes(ctx):
+    import importlib.util
+    spec = importlib.util.spec_from_file_location("buildlib", os.path.join(ctx.V, "mk", "buildlib.py"))
+    bl = importlib.util.module_from_spec(spec); spec.loader.exec_module(bl)
+    bad = []
+    for src, obj, flags in bl.repo_compile_lines(ctx.repo):
+        for f in flags:
+            if ISA_BEYOND.search(f):
+                bad.append((src, f))
+    return bad
+
+
 def check_objsim(ctx):
     spec = OBJSIM[ctx.pid]
     known, fixed = load_known(ctx)
@@ -270,6 +285,23 @@ def check_objsim(ctx):
                 hit = [k for k in known_here if k["sig"] == v["sig"]]
                 (findings if hit else violations).append((v, hit[0] if hit else None))
     extra = {}
+    if ctx.pid == "C13":
+        # validity guard of the CPU simulation: the models know SSE2, AVX, AVX2 and the OS state bits, which is exactly what the
+        # probes test.  If the repository's own flags compile library code for a further instruction-set extension, no model (and
+        # not this host, which has them all) can show that such code is never run on a CPU without it: that IS the property failing.
+        bad = isa_flags_beyond_the_probes(ctx)
+        if bad:
+            path = os.path.join(ctx.replay_dir, "C13-isa-flags-%d.replay" % ctx.seed)
+            os.makedirs(ctx.replay_dir, exist_ok=True)
+            with open(path, "w") as f:
+                f.write("# the repository's build flags enable instruction sets that the run-time probes do not check\nprop C13\nflavour plain\nseed %d\nexpect isa-beyond-probe\nsig isa-beyond-probe:%s\nregen isa\n" % (ctx.seed, bad[0][1]))
+                for src, flag in bad:
+                    f.write("# %s is compiled with %s\n" % (src, flag))
+            v = {"inv": "isa-beyond-probe", "sig": "isa-beyond-probe:" + bad[0][1], "run": 0, "op": -1, "flavour": "plain", "replay": path, "ops_before": 0, "ops_after": 0, "occurrences": len(bad),
+                 "msg": "%s is compiled with %s (and %d more): a back end selected on the strength of the SSE2/AVX2 probes may then execute instructions the CPU lacks; the probes test nothing of the kind" % (bad[0][0], bad[0][1], len(bad) - 1),
+                 "trace": ["%s: %s" % b for b in bad[:20]]}
+            hit = [k for k in known_here if k["sig"] == v["sig"]]
+            (findings if hit else violations).append((v, hit[0] if hit else None))
     if ctx.pid == "C16":
         extra = {"exhaustive": True, "exhaustive_space": "init function (6) x CPU model selecting the back end (3) x allocation fault (first request, second request, memory exhausted from the first request on) x prior handle content class (7, incl. the byte image of another live object) = 378 cells, each enumerated many times; the tail of calls after the failed init is sampled"}
     if ctx.pid == "C13":
@@ -373,6 +405,13 @@ def replay(ctx, path):
             fl = ln.split()[1]
         if ln.startswith("engine "):
             engine = ln.split()[1]
+    if meta.get("regen") == "isa":
+        bad = isa_flags_beyond_the_probes(ctx)
+        for src, flag in bad:
+            print("%s is compiled with %s" % (src, flag))
+        if bad:
+            print("VIOLATION property=C13 replay=%s" % path); return 1
+        print("REPLAY-CLEAN property=C13 file=%s" % path); return 0
     if meta.get("regen") == "1":
         return replay_digest(ctx, path, meta)
     if engine == "objsim":
